@@ -4957,6 +4957,8 @@ class PyCdlib:
                 pass
             else:
                 raise pycdlibexception.PyCdlibInvalidInput('Failed adding duplicate name to parent')
+            if self.rock_ridge and any(c.rock_ridge is not None and c.rock_ridge.name() == new_rr_name for c in parent.rr_children):
+                raise pycdlibexception.PyCdlibInvalidInput('Failed adding duplicate Rock Ridge name to parent')
 
             relocated = False
             fake_dir_rec = None
